@@ -335,3 +335,62 @@ def group_sigint_suite(chk, quick=True):
         elif not d.get('ok') or not d.get('handler_unchanged'):
             chk.violation('ignored_interrupt_completes', c, d, 'an ignored interrupt has no effect: the call completes with correct results and the disposition is unchanged',
                           input_class='group_sigint_' + sm)
+
+FULL_PIPE_SIGINT_DRIVER = r"""
+import sys, os, json, time, signal, threading, faulthandler
+sys.path.insert(0, %(root)r)
+from mpire import WorkerPool
+PAYLOAD = b"x" * (32 * 1024)
+def slow(idx, payload):
+    time.sleep(0.05)
+    return idx
+def main():
+    sm = sys.argv[1]
+    faulthandler.dump_traceback_later(40, exit=True)
+    before = signal.getsignal(signal.SIGINT)
+    threading.Timer(0.6, lambda: os.kill(os.getpid(), signal.SIGINT)).start()
+    t0 = time.time()
+    out = {}
+    try:
+        with WorkerPool(2, start_method=sm) as pool:
+            pool.map(slow, [(i, PAYLOAD) for i in range(400)], chunk_size=1, max_tasks_active=200)
+        out['outcome'] = 'completed'
+    except KeyboardInterrupt:
+        out['outcome'] = 'KeyboardInterrupt'
+    except BaseException as e:
+        out['outcome'] = type(e).__name__
+    out['seconds'] = round(time.time() - t0, 2)
+    out['handler_unchanged'] = signal.getsignal(signal.SIGINT) is before
+    print(json.dumps(out)); sys.stdout.flush()
+    os._exit(0)
+if __name__ == '__main__':
+    main()
+"""
+
+
+def full_pipe_sigint_suite(chk, quick=True):
+    """Ctrl-C while the task queues hold far more than a pipe takes (a look-ahead of 200 tasks of 32 KiB each): shutting the pool down
+    has to empty what the feeder threads still hold, or the caller waits for them for ever.  Pipes and feeder threads are not part of
+    DetSim."""
+    code = FULL_PIPE_SIGINT_DRIVER % {'root': ROOT}
+    jobs = ['fork'] if quick else ['fork', 'spawn', 'forkserver']
+    results = [run_driver(code, [sm], timeout=60) for sm in jobs]
+
+    def bad(r):
+        try:
+            return json.loads(r[1].strip().splitlines()[-1]).get('outcome') != 'KeyboardInterrupt'
+        except Exception:
+            return True
+    results = [r if not bad(r) else run_driver(code, [sm], timeout=60) for sm, r in zip(jobs, results)]
+    suite = 'real processes: Ctrl-C while the task queues hold more than the pipes take'
+    for sm, (rc, out, err) in zip(jobs, results):
+        c = {'start_method': sm, 'max_tasks_active': 200, 'payload': '32 KiB per task'}
+        try:
+            d = json.loads(out.strip().splitlines()[-1])
+        except Exception:
+            d = None
+        chk.count(suite, key=sm, nontrivial=True, sample=dict(c, result=d, rc=rc), start=sm)
+        if d is None:
+            chk.violation('no_hang', c, {'watchdog': rc, 'stacks': (err or '')[-1200:]}, 'the call ends within bounded time', input_class='sigint_full_pipes_hang_' + sm)
+        elif d.get('outcome') not in ('KeyboardInterrupt',) or not d.get('handler_unchanged'):
+            chk.violation('keyboard_interrupt_or_completion', c, d, 'KeyboardInterrupt (the call cannot have completed after 0.6 s), handler unchanged', input_class='sigint_full_pipes_' + sm)
